@@ -257,15 +257,19 @@ let run_transfer (toks : string list) : string =
     in
     let two = nat_of_int 2 in
     let state = ref (Model.empty_set two, Model.gmap_empty_store) in
+    let outs = ref [] in
+    (* `F`: the peer fetches the state as it is at this point; a final fetch is always made *)
     List.iter
       (fun tok ->
-        match parse_request tok with
-        | Some (r, o) ->
-          let x', _ = Model.actor_step false true !state r o in
-          state := x'
-        | None -> ())
-      reqs;
-    "ok " ^ show_set_dump (fst !state) probes
+        if tok = "F" then outs := ("ok " ^ show_set_dump (fst !state) probes) :: !outs
+        else
+          match parse_request tok with
+          | Some (r, o) ->
+            let x', _ = Model.actor_step false true !state r o in
+            state := x'
+          | None -> ())
+      (reqs @ [ "F" ]);
+    String.concat " | " (List.rev !outs)
   | "bad" :: _ -> "err"
   | _ -> "?bad-case"
 
